@@ -139,6 +139,7 @@ func TestC09(t *testing.T) {
 		eachTokenSeqJoin(vlib.Prefixes, vlib.Sigma, 2, " ", h.Mine, yield)
 	}, c09Single)
 	vlib.Rapid(h, "stress-names", h.N(20000, 1000000), genStressNames, c09Single)
+	vlib.Rapid(h, "schema-rule-soup", h.N(8000, 300000), vlib.GenRuleSoup, c09Single)
 	vlib.Rapid(h, "fixture-mutation", h.N(20000, 1000000), vlib.GenMutation, c09Single)
 	vlib.Rapid(h, "token-soup", h.N(10000, 500000), func(t *rapid.T) string {
 		return rapid.SampledFrom(vlib.Prefixes).Draw(t, "prefix") + vlib.GenTokenSoup(t, 14)
